@@ -9,6 +9,17 @@ Proof. destruct l; simpl; split; congruence. Qed.
 Lemma is_nil_false {A} (l : list A) : is_nil l = false <-> l <> [].
 Proof. destruct l; simpl; split; congruence. Qed.
 
+(* sub-second instants: deadlines are whole seconds (ExtendDeadline truncates; RefreshSessionIfNeeded
+   truncates), requests happen at arbitrary instants. In milliseconds: for a whole-second deadline
+   t and an instant strictly inside the second k (k*1000 + ms, 0 < ms < 1000), "t is before the
+   instant" is exactly "t < k + 1", i.e. t <= k: the model evaluated at now = k + 1 decides every
+   deadline comparison of such a request. *)
+Lemma subsecond_instant t k ms :
+  0 < ms < 1000 -> (t * 1000 <? k * 1000 + ms) = is_expired (k + 1) t.
+Proof.
+  intros H. unfold is_expired. destruct (Z.ltb_spec t (k + 1)); [apply Z.ltb_lt | apply Z.ltb_ge]; lia.
+Qed.
+
 Lemma load_session_inr c s : load_session c = inr s <-> c = CkSealed KCookie s.
 Proof.
   destruct c as [| |k s']; simpl; try (split; discriminate).
